@@ -461,6 +461,13 @@ def check_removals(chk, rng, xml, labels, other, nontriv):
     inl = [i for i, t in enumerate(t0) if t[0] == "O" and i > 0 and not t[3]]
     for i in rng.sample(inl, min(2, len(inl))):
         plans.append(("delete", sum(1 for j in inl if j < i)))
+    # reference marks: all of them at once (strip_tags with three tags), or the start and the end tag of one range / one point mark by name
+    rm_idx = [i for i, t in enumerate(t0) if t[0] == "O" and t[1] in (K_RM, K_RMS, K_RME) and not t[3]]
+    if rm_idx:
+        plans.append(("remove_all_reference_marks",))
+        names = sorted({dict(labels.rev[t0[i][2]][1]).get(pt.T + "name") for i in rm_idx} - {None})
+        if names:
+            plans.append(("remove_reference_mark", rng.choice(names)))
     for plan in plans:
         p = Element.from_tag(xml)
         case = {"xml": xml, "op": plan[0], "arg": plan[1:] and plan[1]}
@@ -479,6 +486,16 @@ def check_removals(chk, rng, xml, labels, other, nontriv):
             elif plan[0] == "remove_link":
                 el = p.get_elements("descendant::text:a")[plan[1]]
                 res = p.remove_link(el)
+            elif plan[0] == "remove_all_reference_marks":
+                from odfdo.reference import remove_all_reference_marks
+
+                res = remove_all_reference_marks(p)
+                dropped = (K_RM, K_RMS, K_RME)
+            elif plan[0] == "remove_reference_mark":
+                from odfdo.reference import remove_reference_mark
+
+                remove_reference_mark(p, name=plan[1])
+                res = p
             else:
                 els = [e for e in p.get_elements("descendant::*") if not any(a.tag in ("text:note", "office:annotation") for a in ancestors(e, p))]
                 el = els[plan[1]]
@@ -492,6 +509,18 @@ def check_removals(chk, rng, xml, labels, other, nontriv):
         if plan[0] == "delete":
             if t0[ti][1] not in (K_RMS, K_ANNOT):
                 chk.reqs.append((f"mk delete {ti - 1} | {enc_body(t0)}", ("ok " + enc_body(t1)).strip(), case, False))
+        elif plan[0] == "remove_all_reference_marks":
+            chk.reqs.append((f"mk strips {K_RM},{K_RMS},{K_RME} | {enc_body(t0)}", ("ok " + enc_body(t1)).strip(), case, True))
+        elif plan[0] == "remove_reference_mark":
+            # what get_reference_mark / get_reference_mark_end find: the first start-or-point mark and the first end tag of that name
+            def first(kinds):
+                for i_, t_ in enumerate(t0):
+                    if t_[0] == "O" and t_[1] in kinds and dict(labels.rev[t_[2]][1]).get(pt.T + "name") == plan[1]:
+                        return i_
+                return None
+
+            hit = sorted({i_ for i_ in (first((K_RM, K_RMS)), first((K_RME,))) if i_ is not None}, reverse=True)
+            chk.reqs.append((f"mk strip1s {','.join(str(i_ - 1) for i_ in hit)} | {enc_body(t0)}", ("ok " + enc_body(t1)).strip(), case, True))
         elif plan[0] in ("remove_spans", "remove_links"):
             chk.reqs.append((f"mk strip {pt.K_SPAN if plan[0] == 'remove_spans' else pt.K_A} | {enc_body(t0)}", ("ok " + enc_body(t1)).strip(), case, True))
         else:
@@ -523,7 +552,12 @@ def check_removals(chk, rng, xml, labels, other, nontriv):
         if not (raw_same or read_same) or pt.plain_hidden(t0) != pt.plain_hidden(t1):
             chk.fail({**case, "clause": "removal-keeps-every-character", "before": pt.plain_main(t0), "after": pt.plain_main(t1)}, f"{plan[0]}: characters were lost or changed")
             continue
-        if plan[0] in ("remove_spans", "remove_links"):
+        if plan[0] == "remove_reference_mark":
+            gone = set(hit)
+            want = [(t[1], t[2]) for i, t in enumerate(t0) if t[0] == "O" and i not in gone]
+            if want[1:] != skeleton(t1)[1:]:
+                chk.fail({**case, "clause": "markup-around-untouched", "before": want, "after": skeleton(t1)}, f"{plan[0]}: not exactly the tags of the named mark were removed")
+        elif plan[0] in ("remove_spans", "remove_links", "remove_all_reference_marks"):
             if skeleton(t0, dropped)[1:] != skeleton(t1)[1:]:
                 chk.fail({**case, "clause": "markup-around-untouched", "before": skeleton(t0, dropped), "after": skeleton(t1)}, f"{plan[0]}: other elements changed or some were left")
         else:
@@ -619,7 +653,7 @@ def run(chk: core.Check) -> None:
         "layouts: random inline forests (text, nested spans / links, text:s, tab, line-break, bookmarks, notes; a quarter with raw white-space runs in text "
         "nodes) x operations: set_span / set_link by regex (22 patterns: literals, classes, repetitions, alternations, anchors, groups) and by offsets in "
         "and beyond range x lengths; marks by before / after / position / content / (from, to); notes and annotations; histories of up to 3 insertions, then "
-        "every removal; then the end tag of a range (reference mark, annotation, also a point mark turned into a range) is set again elsewhere "
+        "every removal (spans, links, one span / link, delete of an inline element, all reference marks, the reference mark of a name); then the end tag of a range (reference mark, annotation, also a point mark turned into a range) is set again elsewhere "
         "(set_reference_mark_end / insert_annotation_end by position / before / after). non-trivial = the layout has more than one text node or a white-space element; distinct by (layout xml, operation history)"
     )
     chk.classifiers["offset_counts_text_nodes_only"] = lambda case: case.get("clause") == "offset-designates-readable-substring"
